@@ -17,8 +17,11 @@ def main(argv):
     ap.add_argument("--tier", default=os.environ.get("VERIF_TIER") or "quick", choices=["quick", "thorough"])
     ap.add_argument("--replay", default=None)
     ap.add_argument("--repo", default=None)
+    ap.add_argument("--no-evidence", action="store_true", help="developer runs on scratch trees: do not rewrite evidence/ and replay files")
     a = ap.parse_args(argv)
     pid = a.pid.upper()
+    if a.no_evidence:
+        os.environ["VERIF_NO_EVIDENCE"] = "1"
     t0 = time.time()
     if a.replay:
         with open(a.replay) as fh:
